@@ -3,7 +3,10 @@
 import json, os
 root = os.path.dirname(os.path.abspath(__file__))
 props = [json.loads(l) for l in open(os.path.join(root, 'properties.jsonl'))]
-meta = json.load(open(os.path.join(root, 'checks.json')))
+import glob
+meta = {}
+for f in sorted(glob.glob(os.path.join(root, 'checks.d', '*.json'))):
+    meta[os.path.basename(f)[:-5]] = json.load(open(f))
 checks, na = [], []
 for p in props:
     pid = p['id']
